@@ -205,6 +205,18 @@ def cross_zone_pair(acc, mods, za, ia, zb, ib):
     acc.c["transitions"] += 2
     if got != want:
         acc.mismatch("interval", "cross-zone/as-utc", case, got, want)
+    # the same endpoints handed over as native datetimes
+    na = dt_.datetime(*obs.fields(a), tzinfo=a.tzinfo, fold=a.fold)
+    nb = dt_.datetime(*obs.fields(b), tzinfo=b.tzinfo, fold=b.fold)
+    for lbl, fn in (("interval(native,native)", lambda: pendulum.interval(na, nb)), ("pendulum-minus-native", lambda: b - na)):
+        acc.c["evaluations"] += 1
+        acc.c["transitions"] += 1
+        try:
+            g2 = iv_components(fn())
+        except Exception as e:  # noqa: BLE001
+            g2 = f"raises {type(e).__name__}"
+        if g2 != want:
+            acc.mismatch("interval", f"cross-zone/{lbl}", case, g2, want)
     bad = check_decomp(obs.fields(ua), obs.fields(ub),
                        (want["years"], want["months"], want["weeks"] * 7 + want["days"], want["hours"],
                         want["minutes"], want["seconds"], want["microseconds"]))
@@ -267,6 +279,22 @@ def run_shard(shard):
                         with worker.guarded(acc, "interval", {"kind": "cross", "za": za, "ia": ia, "zb": zb, "ib": ib}):
                             cross_zone_pair(acc, mods, za, ia, zb, ib)
         acc.sample({"same_offset_pairs": [list(map(str, p)) for p in shard["pairs"]], "from": list(calref.civil_from_days(shard["n0"]))})
+    elif k == "overlap":
+        # starts in the SECOND pass of a repeated hour (fold=1): same offset as every later end, so in scope
+        for z in shard["zones"]:
+            trs = [tr for tr in seeds.zone_transitions(z) if tr[2] < tr[1] and tr[1] - tr[2] <= 7200
+                   and 946684800 < tr[0] < 1924992000]
+            for t, ob, oa in seeds.pick_transitions(trs, shard["limit"], shard["seed"]) if shard["limit"] else trs:
+                lo = t + oa                                   # first repeated wall second
+                for dw in (0, (ob - oa) // 2, ob - oa - 1):
+                    fa = seeds.fields_of_wall((lo + dw) * US + 250000)
+                    acc.c["states"] += 1
+                    acc.c["nontrivial"] += 1
+                    for span in (ob - oa, 4 * 3600, 20 * 3600 + 59, 86400 + 7200, 3 * 86400 - 1800, 31 * 86400 + 3600, 400 * 86400):
+                        fb = seeds.fields_of_wall((lo + dw + span) * US + 125000)
+                        with worker.guarded(acc, "interval", {"kind": "iv", "arg": "zone", "z": z, "a": list(fa), "b": list(fb)}):
+                            iv_pair(acc, mods, "zone", fa, fb, z)
+        acc.sample({"overlap_starts_in": shard["zones"][:3], "fold": 1})
     elif k == "cross":
         S = shard["states"]
         for za, ia in shard["left"]:
@@ -295,6 +323,9 @@ def _cross_states(seed):
         for y, m, d, hh in ((2019, 1, 31, 23), (2019, 3, 1, 0), (2020, 2, 29, 12), (2021, 12, 31, 23),
                             (2022, 1, 1, 0), (2023, 4, 30, 13), (2023 + seed % 3, 7, 2, 5)):
             S.append((z, (calref.days_from_civil(y, m, d) * 86400 + hh * 3600 + 1800) * US + 7))
+        # hours around the European and American transitions of 2021 (the UTC shift of an endpoint crosses them)
+        for y, m, d, hh in ((2021, 3, 28, 1), (2021, 3, 28, 12), (2021, 10, 31, 0), (2021, 3, 14, 7), (2021, 11, 7, 5)):
+            S.append((z, (calref.days_from_civil(y, m, d) * 86400 + hh * 3600 + 1800) * US))
     return S
 
 
@@ -322,6 +353,9 @@ def plan(tier, seed):
     for s in range(d(2019, 1, 1), d(2023, 1, 1), 48):
         shards.append({"kind": "cross-same", "n0": s, "n1": s + 48, "step": 1 if thorough else 3, "span": 430,
                        "estep": 1 if thorough else 5, "pairs": [list(p) for p in SAME_OFFSET_PAIRS]})
+    oz = ["Europe/Paris", "America/New_York", "Europe/London", "Australia/Lord_Howe", "America/Sao_Paulo", "Asia/Tehran"] + \
+        [z for z in seeds.witness_zones(seed, 3)[-3:]]
+    shards += [{"kind": "overlap", "zones": [z], "limit": 0 if thorough else 6, "seed": seed} for z in oz]
     S = _cross_states(seed)
     shards += [{"kind": "cross", "left": ch, "states": S} for ch in seeds.chunks(S, 8)]
     plans = [({"ext": 1, "tz": "sys"}, shards)]
@@ -330,7 +364,7 @@ def plan(tier, seed):
         plans.append(({"ext": 0, "tz": "sys"}, iv_only))
     else:
         plans.append(({"ext": 0, "tz": "sys"}, [s for s in shards if s["kind"] == "iv"][::6] +
-                      [s for s in shards if s["kind"] == "cross"] + [s for s in shards if s["kind"] == "cross-same"][::3]))
+                      [s for s in shards if s["kind"] in ("cross", "overlap")] + [s for s in shards if s["kind"] == "cross-same"][::3]))
     return plans
 
 
